@@ -2,22 +2,29 @@
 
 Rules name some locals of the analysed functions (`consumed`, `frame_end`, `max_offset`, ...).  A maintainer may
 rename a local, or hoist a repeated sub-expression into a new local, without changing behaviour.  To keep the rules
-silent on such edits the analysed tree is brought back to the vocabulary the rules were written against:
+silent on such edits the analysed tree is brought back to the vocabulary the rules were written against.  For every
+function whose text differs from the reference, in this order:
 
-  1. **new pure locals are inlined**: a local that the reference vocabulary of the function does not know, that is
-     bound exactly once by a plain assignment whose right-hand side only *reads* (names, attributes, subscripts,
-     arithmetic, comparisons, a few pure builtins - no calls of repository or library functions), is substituted
-     into its uses and its assignment removed;
-  2. **renamed locals are mapped back**: when the function's shape with local names abstracted away equals the
-     reference shape, the k-th local (in order of first binding) takes the reference's k-th name.
+  1. **full rename**: the function's shape with local names abstracted equals the reference shape -> the k-th local
+     (in order of first binding) takes the reference's k-th name;
+  2. **inlining of new pure locals, all or nothing**: locals the reference does not know, bound exactly once by a plain
+     assignment whose right-hand side only *reads* (names, attributes, subscripts, arithmetic, comparisons, a few pure
+     builtins - no calls of repository or library functions), are substituted into their uses and the assignment
+     removed - kept if the function then has the reference shape (followed by 1.);
+  3. **partial rename**: statements are aligned with the reference's by their name-abstracted headers; a new name is
+     mapped to a reference name when the aligned statements pair them one-to-one and the reference name is fresh in
+     the function (`partial_rename`);
+  4. **greedy inlining**: as 2., one local at a time, kept when strictly more statements then align with the reference.
 
-The reference vocabulary (`reference/local_names.json`, written by `tools/gen_localnames.py` from /repo HEAD) holds,
-per function, the list of local names in binding order and a digest of the abstracted shape - names only, no code.
-If a function's shape differs from the reference (any real edit), step 2 does nothing and the rules see the tree as
-it is.  Nothing here can make a rule pass on code whose behaviour changed other than by such a rename/hoist: step 1
-only fires for read-only expressions (whose value at the use site can differ from the value at the definition only if
-something in between writes what they read - see `_safe_to_inline`, which refuses when a statement between definition
-and use may write a name/attribute root the expression reads), step 2 only for identical shapes.
+Each step is behaviour-preserving *by itself*: 1 and 3 are injective renamings to names not otherwise in use
+(alpha-equivalence; the alignment only proposes which name), 2 and 4 substitute a read-only expression into uses
+between which nothing it reads is written (`_safe_to_inline`; a use in a loop that does not contain the definition
+makes the whole loop count as "between").  So no combination can make a rule pass on code whose behaviour changed:
+the rules see a tree that is semantically the author's.  Two names are never merged into one.
+
+The reference (`reference/local_names.json`, written by `tools/gen_localnames.py` from /repo HEAD) holds per function
+the local names in binding order, shape and text digests, and per statement a header digest plus the locals it
+mentions - names and digests, no code.  `VERIF_NO_ALPHA=1` disables the whole module.
 """
 from __future__ import annotations
 
